@@ -12,6 +12,7 @@ import (
 
 	netty "github.com/go-netty/go-netty"
 	"github.com/go-netty/go-netty/utils"
+	"github.com/go-netty/go-netty/utils/pool/pbytes"
 	"nvharness/mock"
 )
 
@@ -220,6 +221,16 @@ func runC14(seed int64, count int) {
 			}
 			if mode == "async" {
 				scribble(msg) // the caller reuses its buffer before the (stalled) sender has run
+				// ... and somebody else uses the buffer pool meanwhile: whatever the channel returned to the pool too
+				// early is handed out again and overwritten before the sender has transmitted it
+				for _, size := range []int{1, 64, 1024, 1024, 4096, 65536} {
+					b := pbytes.Get(size)
+					buf := (*b)[:cap(*b)]
+					for k := range buf {
+						buf[k] = 0xDD
+					}
+					pbytes.Put(b)
+				}
 				dexec.runAll()
 				deadline := time.Now().Add(2 * time.Second)
 				for (netty.NvQueueLen(ch) > 0 || netty.NvSenderRunning(ch)) && time.Now().Before(deadline) {
